@@ -87,6 +87,31 @@ def m_C01(tier):
     # tuple results through pickle-based stores
     for alg in ('lru', 'mru'):
         cfgs.append(C('std', alg, 1, False, 'default', 'dict', result='tuple'))
+    # a variadic function g(x, *rest, **opts): calls that differ only in the named argument / in one extra
+    # positional, under every flat and non-flat keymap family
+    for mod in MODULES:
+        for alg in ALL:
+            ms = None if alg in ('no', 'inf') else 2
+            kms = ('default', 'raw', 'str', 'pickle', 'md5') if (tier == 'thorough' or alg in ('lru', 'inf')) else ('default', 'raw')
+            for km in kms:
+                cfgs.append(C(mod, alg, ms, False, km, 'dict', fn='var', nargs=4, spellings=1))
+            if tier == 'thorough':
+                for km in ('rawnf', 'rawtyped', 'strnf', 'picklenf'):
+                    cfgs.append(C(mod, alg, ms, False, km, 'dict', fn='var', nargs=5, spellings=1))
+    cfgs += falsy_configs(tier)
+    return cfgs
+
+
+def falsy_configs(tier, algs=ALL):
+    """results None / 0 / '' (a stored falsy result is still a stored result)"""
+    cfgs = []
+    for mod in MODULES:
+        for alg in algs:
+            sizes = (None,) if alg in ('no', 'inf') else ((1,) if tier == 'quick' else (1, 2))
+            for ms in sizes:
+                for purge in ((False,) if alg in ('no', 'inf') else (False, True)):
+                    for init in (('empty',) if tier == 'quick' else ('empty', 'seeded_archive')):
+                        cfgs.append(C(mod, alg, ms, purge, 'default', 'dict', init, result='falsy'))
     return cfgs
 
 
@@ -149,6 +174,7 @@ def m_C02(tier):
             for b in pers:
                 for purge in ((False,) if alg in ('no', 'inf') else (False, True)):
                     cfgs.append(C(mod, alg, None if alg in ('no', 'inf') else 1, purge, 'str', b, nargs=2, spellings=1))
+    cfgs += falsy_configs(tier)
     return cfgs
 
 
@@ -167,6 +193,7 @@ def m_C07(tier):
             for b in pers:
                 for purge in ((False,) if alg == 'no' else (False, True)):
                     cfgs.append(C(mod, alg, None if alg == 'no' else 1, purge, 'str', b, nargs=2, spellings=1))
+    cfgs += falsy_configs(tier, BOUNDED + ('no',))
     return cfgs
 
 
@@ -187,6 +214,7 @@ def m_C15(tier):
             for alg in ALL:
                 for b in ('file', 'dir', 'sql'):
                     cfgs.append(C(mod, alg, None if alg in ('no', 'inf') else 1, False, 'str', b, nargs=2, spellings=1))
+    cfgs += falsy_configs(tier)
     return cfgs
 
 
@@ -261,15 +289,15 @@ def ev_for(prop, cfg, tier):
     sp = cfg.get('spellings', 2)
     if prop == 'C06':
         # what the statement quantifies over: calls (+ clear / dump, which keep bookkeeping consistent)
-        ev = call_events(n, sp) + [('clear',), ('dump',)]
-        if cfg['alg'] == 'lru' and (tier != 'quick' or cfg['maxsize'] == 1):
+        ev = call_events(n, sp) + [('clear',), ('dump',), ('clearks',)]
+        if cfg['alg'] == 'lru' and (tier != 'quick' or cfg['maxsize'] <= 2):
             ms = cfg['maxsize']
             ev += [('callx', 0, 10 * ms - 1), ('callx', 1, 10 * ms + 1)]
         if cfg['alg'] == 'lfu':
             ev += [('callx', 0, 3)]
         return ev
     if prop == 'C05':
-        return call_events(n, sp) + [('load',), ('dump',), ('clear',), ('raise', 0, 'Boom')]
+        return call_events(n, sp) + [('load',), ('dump',), ('clear',), ('clearks',), ('raise', 0, 'Boom')]
     if prop == 'C01':
         return base_events(n, sp, mgmt=True) + [('redec',)]
     if prop == 'C02':
